@@ -3,35 +3,39 @@ use noodles_bgzf as bgzf;
 use noodles_core::region::Interval;
 use noodles_csi as csi;
 use noodles_csi::binning_index::index::reference_sequence::bin::Chunk;
+use noodles_vcf as vcf;
 use tokio::io::{self, AsyncRead, AsyncSeek};
 
 use super::Reader;
-use crate::Record;
+use crate::{Record, io::reader::query::intersects};
 
 /// An async reader over records of an async BCF reader that intersects a given region.
 ///
 /// This is created by calling [`Reader::query`].
-pub struct Query<'r, R>
+pub struct Query<'r, 'h: 'r, R>
 where
     R: AsyncRead + AsyncSeek,
 {
     reader: Reader<csi::r#async::io::Query<'r, R>>,
+    header: &'h vcf::Header,
     reference_sequence_id: usize,
     interval: Interval,
 }
 
-impl<'r, R> Query<'r, R>
+impl<'r, 'h: 'r, R> Query<'r, 'h, R>
 where
     R: AsyncRead + AsyncSeek + Unpin,
 {
     pub(super) fn new(
         inner: &'r mut bgzf::r#async::io::Reader<R>,
+        header: &'h vcf::Header,
         chunks: Vec<Chunk>,
         reference_sequence_id: usize,
         interval: Interval,
     ) -> Self {
         Self {
             reader: Reader::from(csi::r#async::io::Query::new(inner, chunks)),
+            header,
             reference_sequence_id,
             interval,
         }
@@ -42,7 +46,13 @@ where
             match self.reader.read_record(record).await? {
                 0 => return Ok(0),
                 n => {
-                    if intersects(record, self.reference_sequence_id, self.interval)? {
+                    // The same filter as the synchronous query is used.
+                    if intersects(
+                        self.header,
+                        record,
+                        self.reference_sequence_id,
+                        self.interval,
+                    )? {
                         return Ok(n);
                     }
                 }
@@ -60,22 +70,4 @@ where
             }
         }))
     }
-}
-
-fn intersects(
-    record: &Record,
-    chromosome_id: usize,
-    region_interval: Interval,
-) -> io::Result<bool> {
-    let id = record.reference_sequence_id()?;
-
-    let Some(start) = record.variant_start().transpose()? else {
-        return Ok(false);
-    };
-
-    let end = record.end()?;
-
-    let record_interval = Interval::from(start..=end);
-
-    Ok(id == chromosome_id && record_interval.intersects(region_interval))
 }
